@@ -324,3 +324,94 @@ def check_lean(rep, relpath):
             rep.errors.append("lean rejected %s: %s" % (relpath, (p.stdout + p.stderr)[-400:]))
     except Exception as e:
         rep.errors.append("lean could not be run on %s: %r" % (relpath, e))
+
+
+PY_TRUSTED = [
+    "T-SMT: z3 5.1 / cvc5 1.0.3 soundness",
+    "T-GEN(py): the Python verification-condition generator vf/pyexec.py implements A-PY (ints = mathematical "
+    "integers, str = sequences of code points, exceptions as control flow, known-length containers; see its "
+    "docstring); anything outside the subset stops the check with exit 3",
+    "the source text is re-read from /repo/src/cffi with ast.parse on every run; contracts are sidecar files",
+]
+
+
+def gen_py_obligations(rep, items):
+    """items: (source path relative to the repo, PyRegistry, qualified function name, contract)"""
+    import hashlib
+    from . import pyexec
+    obs, covers = [], []
+    for rel, reg, qual, con in items:
+        path = os.path.join(cfront.REPO, rel)
+        try:
+            ex = pyexec.PyExec(path, reg)
+            outs = ex.run(qual, con)
+        except pyexec.PyNotSupported as e:
+            rep.errors.append("%s:%s: outside the supported Python subset: %s" % (rel, qual, e))
+            continue
+        except (OSError, SyntaxError) as e:
+            rep.errors.append("%s: cannot read/parse: %r" % (rel, e))
+            continue
+        fn = ex.find(qual)
+        seg = ast_segment(ex.src, fn)
+        rep.functions.append({'name': qual, 'file': rel, 'lines': [fn.lineno, fn.end_lineno],
+                              'sha256': hashlib.sha256(seg.encode()).hexdigest()[:16],
+                              'obligations': len(ex.obs), 'paths': len(outs),
+                              'paths_pruned_infeasible': ex.pruned})
+        if not ex.obs:
+            rep.errors.append("%s:%s generated zero obligations" % (rel, qual))
+        obs += ex.obs
+        for k, o in enumerate(outs):
+            covers.append(smt.Ob("%s:%s:path%d:cover" % (os.path.basename(rel), qual, k), list(o.st.pc),
+                                 z3.BoolVal(False), kind='cover', fn=qual))
+    return obs, covers
+
+
+def ast_segment(src, node):
+    lines = src.split('\n')
+    return '\n'.join(lines[node.lineno - 1:node.end_lineno])
+
+
+def run_property(pid, tier, seed, c_part=None, py_items=(), lemmas=(), concretise=None, trusted=(), technique='',
+                 extra=None, more=None, level='proof', explanation=None, quick_budget=120, thorough_budget=900,
+                 layout_types=('CTypeDescrObject', 'PyObject', 'PyTypeObject', 'CDataObject')):
+    """generic driver: C functions (registry, names), Python functions, lemmas"""
+    rep = Report(pid, tier, seed)
+    budget = quick_budget if tier == 'quick' else thorough_budget
+    obs, covers = [], []
+    tu = None
+    base = []
+    if c_part:
+        R, funcs = c_part
+        tu = cfront.load_tu()
+        try:
+            keys = [tu.parse_type(t).name for t in layout_types]
+            rep.extra['record_layout_asserts_checked_with_gcc'] = cfront.check_layouts(tu, keys)
+        except cfront.FrontEndError as e:
+            rep.errors.append(str(e))
+        for nm, o, c, ex in gen_c_obligations(tu, R, funcs, rep):
+            obs += o
+            covers += c
+        base += BASE_TRUSTED
+        rep.assumptions += ["assumed contract: %s -- %s" % (k, v) for k, v in sorted(R.assumed.items())]
+    if py_items:
+        o, c = gen_py_obligations(rep, py_items)
+        obs += o
+        covers += c
+        base += [t for t in PY_TRUSTED if t not in base]
+    lem = list(lemmas() if callable(lemmas) else lemmas)
+    rep.lemmas = [o.name for o in lem]
+    obs += lem
+    if more:
+        try:
+            o2, c2 = more(rep, tu)
+            obs += o2
+            covers += c2
+        except (NotSupported, cfront.FrontEndError) as e:
+            rep.errors.append("additional obligations: %s" % e)
+    apply_known(rep, obs)
+    run_obligations(rep, obs, budget, covers)
+    rep.assumptions = base + list(trusted) + rep.assumptions
+    if extra:
+        extra(rep, tu)
+    return finish(rep, level=level, trusted_base=base + list(trusted), concretise=concretise,
+                  technique=technique, explanation=explanation)
